@@ -92,7 +92,11 @@ func (f *filler) fill(v reflect.Value) {
 	t := v.Type()
 	switch {
 	case t == tTime:
-		v.Set(reflect.ValueOf(time.Unix(int64(f.t.Choose(1<<31)), 0)))
+		sec := int64(f.t.Choose(1 << 31))
+		if f.t.Chance(1, 12) {
+			sec = -sec // (the wire carries a time's seconds whatever their sign: a zero value or a time before 1970 comes back as it went)
+		}
+		v.Set(reflect.ValueOf(time.Unix(sec, 0)))
 		return
 	case t == tPolicy:
 		v.Set(reflect.ValueOf(f.policy(0)))
